@@ -19,8 +19,8 @@ ASSUMPTIONS = [
     'awaitable completions and resume calls are delivered between two event-loop callbacks',
 ]
 BUDGET = {
-    'quick': {'enum': ['p3', 'w2', 'wfail', 'pair3', 'tasks', 'killwithdrawn', 'listener', 'hookwithdrawn'], 'hyp': 2000, 'shards': 8},
-    'thorough': {'enum': ['p3', 'p4', 'w2', 'w3', 'wfail', 'pair3', 'pair4', 'tasks', 'killwithdrawn', 'listener', 'hookwithdrawn'], 'hyp': 100000, 'shards': 16},
+    'quick': {'enum': ['p3', 'w2', 'wfail', 'pair3', 'tasks', 'killwithdrawn', 'listener', 'hookwithdrawn', 'token'], 'hyp': 2000, 'shards': 8},
+    'thorough': {'enum': ['p3', 'p4', 'w2', 'w3', 'wfail', 'pair3', 'pair4', 'tasks', 'killwithdrawn', 'listener', 'hookwithdrawn', 'token'], 'hyp': 100000, 'shards': 16},
 }
 ALPHABET = [['resume', 'v1'], ['resume', None], ['pause', 'pm'], ['play']]
 
@@ -69,6 +69,15 @@ def enumerate_cases(tier, scope):
                                 if 'resume' not in [e[0] for e in sched]:
                                     continue
                                 yield {'program': cat[name], 'schedule': [['tick', 1]] + sched, 'hooks': [{'hook': hook, 'occ': occ, 'pos': 'post', 'do': do}], 'tag': f'hook:{name}'}
+    elif scope == 'token':
+        # the value of the wake-up is a bare sentinel object (`object()`): a value like any other, not "no value"
+        alpha = [['resume', {'__token__': 1}], ['pause', 'pm'], ['play']]
+        for name in ('wait1', 'waitwait'):
+            for kk in (1, 2, 3):
+                for sched in gen.schedules(alpha, kk, 1):
+                    if 'resume' not in [e[0] for e in sched]:
+                        continue
+                    yield {'program': cat[name], 'schedule': [['tick', 1]] + sched, 'tag': f'token:{name}'}
     elif scope == 'hookwithdrawn':
         # a hook or listener asks for a kill (pause) from inside a transition and drops the request at once: the wait that
         # was just entered is as good as any other
@@ -270,6 +279,18 @@ def execute(case):
         v('continuation-args', f"steps with requests {a['steps']} vs reference {b['steps']}")
     elif va['state'] != b['views']['state']:
         v('final-state', f"{va['state']} vs {b['views']['state']}")
+    if va['state'] == 'finished' and not viol:
+        # the value of every delivered wake-up reached a continuation as its only argument (also None and a bare sentinel
+        # object - only resume() without a value means "no value"); the twin run cannot tell, it runs the same code
+        from ..programs import NOVALUE, dec
+
+        for serial, raw in sorted(a['delivered'].items()):
+            if raw == NOVALUE:
+                continue
+            value = dec(raw) if isinstance(raw, (dict, list)) else raw
+            if not any(len(args) == 1 and (args[0] is value or args[0] == value) and type(args[0]) is type(value) for _step, args, _kw in a['steps']):
+                v('wake-up-value-lost', f'wait #{serial} was resumed with {raw!r}, but no continuation received it: {[(s_, ar) for s_, ar, _ in a["steps"]]!r:.200}')
+                break
     for esc in a['escapes']:
         v('loop-exception', str(esc))
         break
